@@ -63,3 +63,23 @@ PROPS = {
         assumptions=["stdio stream = byte array; single-threaded; little-endian host"],
     ),
 }
+
+# merged but not yet claimed (waiting for the model to follow fix: commits in /repo); runnable with bin/check, not in MANIFEST
+PENDING = {
+    "C08": dict(
+        lean_props=["H4.Props.C08"],
+        engines=[
+            E("vg", "e_vg.c", model="vg", quick=dict(cases=300, chunk=25), thorough=dict(cases=4000, seeds=4, chunk=50)),
+        ],
+        trusted_base=["DD layer (Hnewref/Hputelement/Hgetelement/Hdeldd) and the Vdata layer below the Vgroup tables: not modelled here; refs handed out by Hnewref are inputs of the model"],
+        assumptions=["single-threaded; one file open at a time; Vgroups are deleted only when detached (deleting an attached Vgroup frees memory the handle still uses)"],
+    ),
+    "C11": dict(
+        lean_props=["H4.Props.C11"],
+        engines=[
+            E("an", "e_an.c", model="an", quick=dict(cases=300, chunk=25), thorough=dict(cases=4000, seeds=4, chunk=50)),
+        ],
+        trusted_base=["DD layer (Htagnewref/Hputelement/Hstartwrite/HDreuse_tagref) below the annotation tables: not modelled; refs handed out by Htagnewref are inputs of the model", "atom layer (annotation ids): an annotation is identified by (type, ref) on the tie"],
+        assumptions=["single-threaded; even DD-block sizes only (Hnumber over-reads odd-sized DD blocks: a C12 finding); DFANclear() before each DFAN session (its directory cache is per file NAME)"],
+    ),
+}
